@@ -40,7 +40,7 @@ func (w WireOp) String() string {
 // fieldOf renders the receiver field a value denotes: p:recv.F → "F".
 func fieldOf(v ssa.Value, recv *ssa.Parameter) string {
 	d := Describe(v)
-	pre := "p:" + recv.Name() + "."
+	pre := "p:" + ParamName(recv) + "."
 	if strings.HasPrefix(d, pre) {
 		f := strings.TrimPrefix(d, pre)
 		// strip slicing/indexing of the field
@@ -94,7 +94,7 @@ func fieldOfAddr(addr ssa.Value, recv *ssa.Parameter) string {
 	if u, ok := base.(*ssa.UnOp); ok && u.Op == token.MUL {
 		base = u.X
 	}
-	if base == ssa.Value(recv) || Describe(base) == "p:"+recv.Name() {
+	if base == ssa.Value(recv) || Describe(base) == "p:"+ParamName(recv) {
 		return fieldName(fa.X.Type(), fa.Field)
 	}
 	return ""
